@@ -471,6 +471,8 @@ def run(prog, tier):
     obs.extend(units_obligations(prog, REL, "GaussianKDE", configs, public, EXPECTED))
 
     obs.extend(dtype_hazard_obligations(prog, "float-arithmetic", ['inference/pdf/kde.py']))
+    from .common import call_order_obligations
+    obs.extend(call_order_obligations(prog, "arguments-in-order", ['inference/pdf/kde.py']))
 
     for mname in ("__call__", "cdf"):
         obs.append(_every_group_stored(prog, ci, ci.methods[mname]))
